@@ -18,7 +18,7 @@ VARIABLES s, ph, cs
 
 NoCase == Case("-", "-", <<>>, <<>>)
 
-Init == s \in StringsUpTo(MaxLen) /\ ph = "str" /\ cs = NoCase
+Init == s \in (StringsUpTo(MaxLen) \cup ExtraStrings) /\ ph = "str" /\ cs = NoCase
 
 Emit ==
   /\ ph = "str"
